@@ -11,6 +11,8 @@ import sys
 from harness.am import AM, BadParams
 
 logging.disable(logging.CRITICAL)  # the library logs a lot; observation goes through CutHandler below
+logging.getLogger("xstate_statemachine").propagate = False
+logging.getLogger("xstate_statemachine").addHandler(logging.NullHandler())
 
 STATUS = {"uninitialized": 0, "running": 1, "done": 2, "error": 3, "stopped": 4}
 ERRS = {"ImplementationMissingError": 0, "StateNotFoundError": 1, "InvalidConfigError": 2, "NotSupportedError": 3}
@@ -148,6 +150,7 @@ def build_logic(am: AM, rec: Rec, engine="sync", sched=None):
             if engine == "async":
                 async def svc(i, ctx, ev, inv=inv):
                     rec.svc_calls.append((inv.iid, dict(ev.payload)))
+                    rec.log.append(("svc", inv.iid))
                     await asyncio.sleep(inv.dur / 1000.0)
                     if not inv.ok:
                         raise RuntimeError("service %s failed" % inv.iid)
@@ -155,6 +158,7 @@ def build_logic(am: AM, rec: Rec, engine="sync", sched=None):
             else:
                 def svc(i, ctx, ev, inv=inv):
                     rec.svc_calls.append((inv.iid, dict(ev.payload)))
+                    rec.log.append(("svc", inv.iid))
                     if not inv.ok:
                         raise RuntimeError("service %s failed" % inv.iid)
                     return inv.val
@@ -373,6 +377,8 @@ def flat_log(log, raw_rearm=False):
             out += [TS("fail")]
         elif k == "clock":
             out += [TS("clock"), TN(o[1])]
+        elif k == "svc":
+            out += [TS("svc"), TS(o[1])]
         i += 1
     return out
 
